@@ -310,11 +310,15 @@ func main() {
 		return
 	}
 
-	phaseEvil()
-	phaseTransport()
-	phaseMitm()
-	phaseStreams()
-	phaseMconn()
+	if os.Getenv("VERIF_C20_ONLY") == "interleave" { // development aid: measure one phase alone (exits through the vacuity guards)
+		phaseInterleave()
+	} else {
+		phaseEvil()
+		phaseTransport()
+		phaseMitm()
+		phaseStreams()
+		phaseMconn()
+	}
 
 	km, kw, kr, ml := 3, 4, 4, 2
 	if r.Thorough() {
